@@ -58,6 +58,16 @@ package posix
 //@        && arg("meta.MetadataStorer.RetrieveAttribute", 3) == e && result("meta.MetadataStorer.RetrieveAttribute", 1) == nil \
 //@        ==> called("strings.TrimPrefix") && arg("strings.TrimPrefix", 0) == e && in(result("strings.TrimPrefix", 0), m)
 
+// ---- C08: an earlier upload of a part stays until the new one is published (a failed re-upload must not lose it) ----
+//@ func (*Posix) UploadPart
+//@   at-call? os.Remove {C08} [the-earlier-part-is-replaced-only-by-publishing-the-new-one] requires false
+//@   at-call? os.RemoveAll {C08} [the-earlier-part-is-replaced-only-by-publishing-the-new-one-2] requires false
+
+// ---- C16: creating a bucket that exists leaves it untouched: create removes nothing it did not make itself ----
+//@ func (*Posix) CreateBucket
+//@   at-call? os.Remove {C16} [create-removes-only-what-it-made] requires called("os.Mkdir") && result("os.Mkdir", 0) == nil
+//@   at-call? os.RemoveAll {C16} [create-removes-only-what-it-made-2] requires called("os.Mkdir") && result("os.Mkdir", 0) == nil
+
 // ---- C10: retention overwrite rules ---------------------------------------------------
 // The retention attribute of an object version is (re)written only when none exists yet, or the
 // existing one is not COMPLIANCE and, if GOVERNANCE, the caller's bypass was granted. (The gateway
